@@ -61,6 +61,7 @@ THEOREMS = [
     "Measured.framed_add", "Measured.queries_frame",
     "Measured.C08.path_search_pure", "Measured.C08.flat_conversion_history_free", "Measured.C08.conversion_changes_no_declaration", "Measured.C08.no_query_changes_the_declarations",
     "Measured.queries_good", "Measured.Obligations.History.shippedState_after", "Measured.Obligations.History.after_any_history", "Measured.Obligations.History.sample_history_valid",
+    "Measured.Obligations.History.simple_conversions_near_in", "Measured.Obligations.History.simple_only_not_found_in", "Measured.Obligations.History.simple_units_interconvert_in", "Measured.Obligations.History.direct_conversions_near_in", "Measured.Obligations.History.fundamental_units_interconvert_in",
 ]
 LEAN_TARGETS = ["Props.C08", "Props.C08Planner", "Props.C08Declared", "Proofs.Flat", "Proofs.Frame", "Obligations.C08", "Props.Planner", "Obligations.History"]
 QUICK = {"chunks": 4, "ops": 500}
